@@ -1,6 +1,17 @@
 #!/bin/bash
-# Offline build of the whole harness (all property binaries).
-set -e
-cd "$(dirname "$0")/harness"
+# Offline build of the harness binaries of every check registered in MANIFEST.json.
+# (Each ./check invocation rebuilds incrementally from /repo's working tree anyway;
+# this only warms the build cache.)
+cd "$(dirname "$0")"
 export CARGO_NET_OFFLINE=true
-cargo build --release --offline --workspace --bins
+ids=$(python3 -c "import json;print(' '.join(c['property_id'] for c in json.load(open('MANIFEST.json'))['checks']))")
+rc=0
+for id in $ids; do
+  bin=$(echo "$id" | tr 'A-Z' 'a-z')
+  src=$(ls harness/*/src/bin/$bin.rs 2>/dev/null | head -1)
+  [ -z "$src" ] && { echo "setup: no source for $id" >&2; rc=1; continue; }
+  crate=$(echo "$src" | cut -d/ -f2)
+  echo "setup: building $id ($crate/$bin)"
+  ( cd harness && cargo build --release --offline -p "$crate" --bin "$bin" ) >/dev/null 2>&1 || { echo "setup: build of $id failed" >&2; rc=1; }
+done
+exit $rc
